@@ -191,7 +191,7 @@ class Interp:
         self.stats = Counter()
         self.inited = set()
         self.base_heap = {}
-        self.map_orders = map_orders  # None: insertion order; 'rot': all rotations; 'perm': all permutations
+        self.map_orders = map_orders  # None: insertion order; 'rot': all rotations; 'rot1': one rotation per map object; 'perm': all permutations
         self.map_order_filter = map_order_filter  # substring of the map type the exploration is restricted to
         self.global_reads = set()
         self.global_writes = set()
@@ -1858,6 +1858,26 @@ class Interp:
         n = len(ents)
         if self.map_orders and n > 1 and (self.map_order_filter is None or self.map_order_filter in ins['xt']):
             import itertools as _it
+            if self.map_orders == 'rot1':
+                # one rotation per map object and run of the entry point: chosen at the first range over it, kept for
+                # the later ones (a reduced exploration for range statements that sit in loops)
+                chosen = st.aux.get('maprot', {}).get(x.obj)
+                if chosen is not None and chosen < n:
+                    order = tuple(range(chosen, n)) + tuple(range(0, chosen))
+                    o = self.alloc(st, None, ('mapiter', x, tuple(ents[i][0] for i in order), 0))
+                    return Ptr(o, ())
+
+                def mk1(r):
+                    def f(s_):
+                        d = dict(s_.aux.get('maprot', {}))
+                        d[x.obj] = r
+                        s_.aux['maprot'] = d
+                        order = tuple(range(r, n)) + tuple(range(0, r))
+                        o = self.alloc(s_, None, ('mapiter', x, tuple(ents[i][0] for i in order), 0))
+                        return Ptr(o, ())
+                    return f
+                self.stats['map_orders'] += n
+                return ('alts', [(True, mk1(r)) for r in range(n)])
             if self.map_orders == 'rot':
                 orders = [tuple(range(r, n)) + tuple(range(0, r)) for r in range(n)]
             else:
